@@ -130,7 +130,15 @@ func (r *Run) ReplayVector() []int { return r.replayVector }
 
 // SetBudget sets the internal deadline: a run that reaches it stops exploring, reports what was
 // completely covered and exits 0 with exhaustive:false. It is never an oracle.
-func (r *Run) SetBudget(d time.Duration) { r.Deadline = r.Start.Add(d) }
+func (r *Run) SetBudget(d time.Duration) {
+	if s := os.Getenv("VERIF_DEADLINE"); s != "" && parseWorker() != nil {
+		var u int64
+		fmt.Sscan(s, &u)
+		r.Deadline = time.Unix(u, 0) // a worker inherits the deadline of its parent
+		return
+	}
+	r.Deadline = r.Start.Add(d)
+}
 
 func (r *Run) Expired() bool {
 	if r.Deadline.IsZero() {
@@ -231,6 +239,9 @@ func Deviations(k int) Mode { return Mode{Bounded: true, Bound: k} }
 // every leaf with eval on Workers goroutines. In replay mode only the recorded vector of the
 // recorded scope is executed.
 func Explore[C any](r *Run, scope string, mode Mode, gen func(*Ctx) C, eval func(C, *Rec)) *ScopeStat {
+	if parseWorker() != nil {
+		return nil // worker of an isolated exploration: only its own scope runs
+	}
 	if r.Replaying() {
 		if r.replayScope != scope {
 			return nil
